@@ -40,6 +40,28 @@ def run (j : Json) : R Json := do
     pure (obj [("oriented", Json.bool o.oriented), ("face_len2", ofRats o.faceLen2),
                ("face_centers", ofList ofP2 o.faceCenters), ("face_normals", ofList ofP2 o.faceNormals),
                ("cell_volumes", ofRats o.cellVolumes), ("cell_centers", ofList (ofOpt ofP2) o.cellCenters)])
+  | "geom2e" =>
+    -- planar model followed by the rigid motion x ↦ sc · (R x + b) of the outputs
+    let nodes ← (← fRatss j "nodes").mapM toP2
+    let faces ← (← fNatss j "faces").mapM (fun l => match l with
+      | [s, e] => pure (s, e)
+      | _ => throw "face needs 2 nodes")
+    let cells ← cellsOf j
+    let ml ← fRat j "mean_len"
+    let rows ← (← fRatss j "m").mapM toP3
+    let b ← toP3 (← fRats j "b")
+    let sc ← fRat j "sc"
+    match rows with
+    | [r1, r2, r3] =>
+      let R : M3 := ⟨r1, r2, r3⟩
+      let o := geom2 ⟨nodes, faces, cells⟩ ml
+      let pos := fun (q : P2) => ofP3 (P3.smul sc (embedP R b q))
+      pure (obj [("oriented", Json.bool o.oriented), ("face_len2", ofRats (o.faceLen2.map (· * sc * sc))),
+                 ("face_centers", ofList pos o.faceCenters),
+                 ("face_normals", ofList (fun n => ofP3 (P3.smul sc (embedV R n))) o.faceNormals),
+                 ("cell_volumes", ofRats (o.cellVolumes.map (· * sc * sc))),
+                 ("cell_centers", ofList (ofOpt pos) o.cellCenters)])
+    | _ => throw "m needs 3 rows"
   | "tensor2" =>
     let xs ← fRats j "xs"
     let ys ← fRats j "ys"
